@@ -10,8 +10,19 @@ use crate::{
     compiler::{Card, CardBody, ForEach, Function, Module},
     procedures::ExecutionErrorPayload,
     value::Value,
-    vm::{runtime::cao_lang_object::CaoLangObjectBody, Vm},
+    vm::{
+        runtime::cao_lang_object::{CaoLangObjectBody, ObjectGcGuard},
+        Vm,
+    },
 };
+
+/// Keeps a value computed by a callback alive while further callbacks may trigger collections
+fn guard_value(value: Value) -> Option<ObjectGcGuard> {
+    match value {
+        Value::Object(o) => Some(ObjectGcGuard::new(o)),
+        _ => None,
+    }
+}
 
 /// Given a table and a callback that returns a bool create a new table whith the items that return
 /// true
@@ -177,6 +188,8 @@ pub fn native_minmax<T, const LESS: bool>(
                     vm.stack_push(*first.1)?;
                     vm.stack_push(*first.0)?;
                     let mut max_key = vm.run_function(key_fn)?;
+                    // the best key so far is only held here: guard it against collections
+                    let mut max_key_guard = guard_value(max_key);
                     let mut i = 0;
 
                     for (j, (k, value)) in t.iter().enumerate().skip(1) {
@@ -186,8 +199,11 @@ pub fn native_minmax<T, const LESS: bool>(
                         if if LESS { key < max_key } else { key > max_key } {
                             i = j;
                             max_key = key;
+                            drop(max_key_guard.take());
+                            max_key_guard = guard_value(max_key);
                         }
                     }
+                    drop(max_key_guard);
                     let k = t.nth_key(i);
                     let v = *t.get(&k).unwrap();
                     let mut result = vm.init_table()?;
@@ -220,10 +236,13 @@ pub fn native_sorted<T>(
                     // TODO:
                     // sort in place?
                     let mut result = Vec::with_capacity(t.len());
+                    // the computed keys are only held here: guard them against collections
+                    let mut key_guards = Vec::with_capacity(t.len());
                     for (k, v) in t.iter() {
                         vm.stack_push(*v)?;
                         vm.stack_push(*k)?;
                         let key = vm.run_function(key_fn)?;
+                        key_guards.push(guard_value(key));
                         result.push((key, k, v));
                     }
                     result.sort_by(|(a, _, _), (b, _, _)| {
@@ -235,6 +254,7 @@ pub fn native_sorted<T>(
                     for (_, k, v) in result {
                         t.insert(*k, *v)?;
                     }
+                    drop(key_guards);
                     Ok(Value::Object(out.0))
                 }
                 CaoLangObjectBody::String(_) // TODO: define sort for strings?
